@@ -55,6 +55,9 @@ func checkFullForest(in *Inst, f *model.Forest, notFound []Hash, hashEverywhere 
 	}
 	for s, d := range f.Dead {
 		if d {
+			if _, again := v.LeafPos[f.Hashes[s]]; again {
+				continue // the spent leaf was re-created with the same hash: it is live in another slot
+			}
 			if p, ok := acc.GetLeafPosition(f.Hashes[s]); ok {
 				return fmt.Errorf("%s: GetLeafPosition(deleted leaf of slot %d) = (%d,true), want not found", in.Cfg, s, p)
 			}
